@@ -928,7 +928,7 @@ def select(query, nodes, deep=False, roots=False):
     seen = set()
     top = []
     for r in results:
-        root = r.root
+        root = r.root if r.root is not None else r
         if root not in seen:
             seen.add(root)
             top.append(root)
